@@ -62,14 +62,38 @@ import (
 type loopInput struct {
 	Kind string `json:"k"` // "h" header, "x" crash while idle
 	N    int64  `json:"n"`
-	Out  string `json:"o"` // "d" done, "f" query failure, "c0".."c5" crash points
+	Out  string `json:"o"` // "d" done, "f" query failure, crash points "c0".."c5", "b<k>" on the k-th broadcast, "a<k>" after it, "w<k>" after the k-th cursor write
+	M    string `json:"m"` // the model input this corresponds to for a loop with one broadcast and one write per iteration
 }
 
 func (i loopInput) String() string {
 	if i.Kind == "x" {
 		return "x"
 	}
-	return fmt.Sprintf("h%d:%s", i.N, i.Out)
+	return fmt.Sprintf("h%d:%s", i.N, i.mo())
+}
+
+func (i loopInput) mo() string {
+	if i.M != "" {
+		return i.M
+	}
+	return i.Out
+}
+
+// crashK parses "b3" / "a2" / "w1" → (kind, k); legacy names: c2 = b1, c3 = a1 (c4 = a1 with a longer wait)
+func crashK(out string) (byte, int) {
+	switch out {
+	case "c2":
+		return 'b', 1
+	case "c3", "c4":
+		return 'a', 1
+	}
+	if len(out) >= 2 && (out[0] == 'b' || out[0] == 'a' || out[0] == 'w') {
+		k := 0
+		fmt.Sscanf(out[1:], "%d", &k)
+		return out[0], k
+	}
+	return 0, 0
 }
 
 type loopSpec struct {
@@ -109,6 +133,7 @@ type childState struct {
 	db       *leveldb.DB
 	journal  *int64 // number of journal writes seen by the observing storage wrapper
 	lastIO   int64
+	putsIter int // cursor writes observed since the last log query
 	bank     common.Address
 	registry common.Address
 	events   chan string        // loop observations: "getlogs lo hi", "account", "broadcast n1,n2", "log <message>"
@@ -161,6 +186,7 @@ func (c *childState) checkPut() {
 			panic(err)
 		}
 		c.record(fmt.Sprintf("P %s", new(big.Int).SetBytes(v)))
+		c.putsIter++
 	}
 }
 
@@ -457,14 +483,6 @@ func runLoopChild(specPath string) {
 	}
 	time.Sleep(100 * time.Millisecond) // Start reads the LevelDB cursor right after subscribing
 
-	hasEvents := func(lo, hi int64) bool {
-		for _, p := range spec.Place {
-			if p[1] >= lo && p[1] <= hi {
-				return true
-			}
-		}
-		return false
-	}
 	// sentinel: a header below the confirmation depth; its "negative" log line proves the previous
 	// iteration has completely finished (LevelDB written, in-memory cursor assigned)
 	barrier := func(timeout time.Duration) {
@@ -502,39 +520,47 @@ func runLoopChild(specPath string) {
 			continue
 		}
 		c.record(fmt.Sprintf("Q %d %d 1", lo, hi))
+		c.putsIter = 0
 		c.reply <- "ok"
-		if hasEvents(lo, hi) {
-			c.expect("account", 45*time.Second)
-			if in.Out == "c1" {
-				c.die(idx)
+		// the sentinel header is queued behind this iteration: its log line proves the iteration is over,
+		// however many broadcasts and cursor writes it consists of
+		c.notify(fakeHeader(0))
+		ck, kk := crashK(in.Out)
+		broadcasts := 0
+		for over := false; !over; {
+			ev := c.expectAny(245*time.Second, "account", "broadcast ", "log receive new ethereum header.")
+			if ck == 'w' && c.putsIter >= kk && !strings.HasPrefix(ev, "log ") {
+				c.die(idx) // right after the k-th cursor write of this iteration, before anything else happens
 			}
-			c.reply <- "ok"
-			b := c.expect("broadcast ", 45*time.Second)
-			if in.Out == "c2" {
-				c.die(idx)
-			}
-			c.record("C " + strings.TrimPrefix(b, "broadcast "))
-			c.reply <- "ok"
-			switch in.Out {
-			case "c3":
-				time.Sleep(1500 * time.Millisecond)
-				c.checkPut()
-				c.die(idx)
-			case "c4":
-				time.Sleep(6 * time.Second)
-				c.checkPut()
-				c.die(idx)
+			switch {
+			case ev == "account":
+				if in.Out == "c1" && broadcasts == 0 {
+					c.die(idx)
+				}
+				c.reply <- "ok"
+			case strings.HasPrefix(ev, "broadcast "):
+				broadcasts++
+				if ck == 'b' && broadcasts == kk {
+					c.die(idx) // on the k-th broadcast, before it is received
+				}
+				c.record("C " + strings.TrimPrefix(ev, "broadcast "))
+				c.reply <- "ok"
+				if ck == 'a' && broadcasts == kk {
+					if in.Out == "c4" {
+						time.Sleep(6 * time.Second)
+					} else {
+						time.Sleep(1500 * time.Millisecond)
+					}
+					c.checkPut()
+					c.die(idx) // after the k-th broadcast, during the loop's sleep, before the next write
+				}
+			default: // the sentinel header: the iteration is over
+				c.record("H 0")
+				c.expect("log Ending block index negative", 45*time.Second)
+				over = true
 			}
 		}
-		// (a crash point between query and cursor write cannot be realised on a range without events: the
-		// iteration then simply runs to its end, and the trace will say so)
-		// iteration runs to its end (10 s sleep if something was submitted)
-		c.notify(fakeHeader(0))
-		c.expect("log receive new ethereum header.", 245*time.Second)
-		c.checkPut()
-		c.record("H 0")
-		c.expect("log Ending block index negative", 45*time.Second)
-		if in.Out == "c5" {
+		if in.Out == "c5" || (ck == 'w' && c.putsIter >= kk) {
 			c.die(idx)
 		}
 	}
@@ -556,15 +582,16 @@ type loopCase struct {
 func (lc loopCase) modelInputs() []loopInput {
 	var res []loopInput
 	for _, in := range lc.inputs {
-		if in.Kind == "h" && in.N >= 50 && (in.Out == "d" || in.Out == "c5") {
+		mo := in.mo()
+		if in.Kind == "h" && in.N >= 50 && (mo == "d" || mo == "c5") {
 			// the sentinel is observed before the crash-after-write is executed: h n done, h0, then idle crash
-			if in.Out == "c5" {
-				res = append(res, loopInput{"h", in.N, "d"}, loopInput{"h", 0, "d"}, loopInput{Kind: "x"})
+			if mo == "c5" {
+				res = append(res, loopInput{Kind: "h", N: in.N, Out: "d"}, loopInput{Kind: "h", N: 0, Out: "d"}, loopInput{Kind: "x"})
 			} else {
-				res = append(res, in, loopInput{"h", 0, "d"})
+				res = append(res, loopInput{Kind: "h", N: in.N, Out: "d"}, loopInput{Kind: "h", N: 0, Out: "d"})
 			}
 		} else {
-			res = append(res, in)
+			res = append(res, loopInput{Kind: in.Kind, N: in.N, Out: mo})
 		}
 	}
 	return res
@@ -651,7 +678,11 @@ func rawTrace(obs string) string {
 			parts = append(parts, fmt.Sprintf("Q%s-%s%s", f[1], f[2], ok))
 		case "C":
 			ns := strings.Split(f[1], ",")
-			sort.Strings(ns)
+			sort.Slice(ns, func(i, j int) bool {
+				a, _ := new(big.Int).SetString(ns[i], 10)
+				b, _ := new(big.Int).SetString(ns[j], 10)
+				return a != nil && b != nil && a.Cmp(b) < 0
+			})
 			parts = append(parts, "C"+strings.Join(ns, "."))
 		case "P":
 			parts = append(parts, "P"+f[1])
@@ -715,37 +746,37 @@ func genFarLoopCase(r *Rng) loopCase {
 		if r.Intn(4) == 0 {
 			out = []string{"c3", "c2", "c5", "f"}[r.Intn(4)]
 		}
-		lc.inputs = append(lc.inputs, loopInput{"h", head, out})
+		lc.inputs = append(lc.inputs, loopInput{Kind: "h", N: head, Out: out})
 		if out != "d" && out != "c5" {
 			head += int64(1 + r.Intn(3))
-			lc.inputs = append(lc.inputs, loopInput{"h", head, "d"})
+			lc.inputs = append(lc.inputs, loopInput{Kind: "h", N: head, Out: "d"})
 		}
 	case 1: // header gap / burst
 		first := int64(120 + r.Intn(40))
 		if r.Bool() {
 			lc.p0 = first - 50 - int64(r.Intn(10))
 		}
-		lc.inputs = append(lc.inputs, loopInput{"h", first, "d"})
+		lc.inputs = append(lc.inputs, loopInput{Kind: "h", N: first, Out: "d"})
 		cur := first - 50 + 1
 		head = first + d
 		placeBeyond(r, &lc, &nonce, cur, head-50)
-		lc.inputs = append(lc.inputs, loopInput{"h", head, "d"})
+		lc.inputs = append(lc.inputs, loopInput{Kind: "h", N: head, Out: "d"})
 	default: // long run of query failures while the chain advances
 		lc.p0 = int64(60 + r.Intn(100))
 		head = lc.p0 + 50 + int64(r.Intn(5))
-		lc.inputs = append(lc.inputs, loopInput{"h", head, "d"})
+		lc.inputs = append(lc.inputs, loopInput{Kind: "h", N: head, Out: "d"})
 		cur := head - 50 + 1
 		k := 2 + r.Intn(4)
 		for i := 0; i < k; i++ {
 			head += d/int64(k) + 1
-			lc.inputs = append(lc.inputs, loopInput{"h", head, "f"})
+			lc.inputs = append(lc.inputs, loopInput{Kind: "h", N: head, Out: "f"})
 			if r.Intn(4) == 0 {
 				lc.inputs = append(lc.inputs, loopInput{Kind: "x"})
 			}
 		}
 		head += int64(1 + r.Intn(3))
 		placeBeyond(r, &lc, &nonce, cur, head-50)
-		lc.inputs = append(lc.inputs, loopInput{"h", head, "d"})
+		lc.inputs = append(lc.inputs, loopInput{Kind: "h", N: head, Out: "d"})
 	}
 	// a few ordinary iterations afterwards (the cursor must now sit right behind the confirmed head)
 	for k := r.Intn(3); k >= 0; k-- {
@@ -754,7 +785,7 @@ func genFarLoopCase(r *Rng) loopCase {
 		if r.Intn(6) == 0 {
 			out = "c5"
 		}
-		lc.inputs = append(lc.inputs, loopInput{"h", head, out})
+		lc.inputs = append(lc.inputs, loopInput{Kind: "h", N: head, Out: out})
 		if r.Intn(5) == 0 {
 			lc.inputs = append(lc.inputs, loopInput{Kind: "x"})
 		}
@@ -762,9 +793,64 @@ func genFarLoopCase(r *Rng) loopCase {
 	return lc
 }
 
-func genLoopCase(r *Rng) loopCase {
+var batchSizes = []int{10, 16, 20, 25, 32, 50}
+
+// genBurstLoopCase: ONE scanned range with 25–70 bridge events, several per block (blocks of 3–6 events and
+// some single ones), laid out so that every boundary of a plausible claims-per-transaction size (multiples of
+// 10/16/20/25/32/50) falls INSIDE a block; the iteration is killed on / after the k-th broadcast or after the
+// k-th cursor write (k = 1..4, whatever the loop under test does per iteration), restarted, and continued.
+func genBurstLoopCase(r *Rng) loopCase {
+	var lc loopCase
+	lc.p0 = int64(1000 + r.Intn(300))
+	total := 25 + r.Intn(46)
+	boundary := map[int]bool{}
+	for _, b := range batchSizes {
+		for m := b; m < total; m += b {
+			boundary[m] = true
+		}
+	}
+	blk := lc.p0 + int64(r.Intn(4))
+	cum := 0
+	nonce := int64(1)
+	for cum < total {
+		size := []int{1, 1, 3, 4, 5, 6, 4, 5}[r.Intn(8)]
+		for boundary[cum+size] {
+			size++
+		}
+		if cum+size > total {
+			size = total - cum
+		}
+		for j := 0; j < size; j++ {
+			lc.place = append(lc.place, [2]int64{nonce, blk})
+			nonce++
+		}
+		cum += size
+		blk += int64(1 + r.Intn(25))
+	}
+	head := blk + 50 + int64(r.Intn(5))
+	out := []string{"d", "b1", "b2", "b2", "b3", "b4", "a1", "a2", "a3", "w1", "w1", "w2", "w3", "c1", "c0"}[r.Intn(15)]
+	if r.Intn(4) == 0 {
+		// an ordinary iteration before the big range (the range then starts at the in-memory cursor)
+		first := lc.p0 + 50 + int64(r.Intn(3))
+		lc.inputs = append(lc.inputs, loopInput{Kind: "h", N: first, Out: "d"})
+	}
+	lc.inputs = append(lc.inputs, loopInput{Kind: "h", N: head, Out: out})
+	for k := 1 + r.Intn(2); k > 0; k-- {
+		head += int64(1 + r.Intn(3))
+		lc.inputs = append(lc.inputs, loopInput{Kind: "h", N: head, Out: "d"})
+	}
 	if r.Intn(3) == 0 {
+		lc.inputs = append(lc.inputs, loopInput{Kind: "x"})
+	}
+	return lc
+}
+
+func genLoopCase(r *Rng) loopCase {
+	switch r.Intn(12) {
+	case 0, 1, 2, 3:
 		return genFarLoopCase(r)
+	case 4, 5, 6:
+		return genBurstLoopCase(r)
 	}
 	var lc loopCase
 	switch r.Intn(3) {
@@ -812,16 +898,16 @@ func genLoopCase(r *Rng) loopCase {
 				out = []string{"c1", "c2", "c3", "c4"}[r.Intn(4)]
 			}
 		}
-		lc.inputs = append(lc.inputs, loopInput{"h", head, out})
+		lc.inputs = append(lc.inputs, loopInput{Kind: "h", N: head, Out: out})
 		switch r.Intn(8) {
 		case 0:
 			lc.inputs = append(lc.inputs, loopInput{Kind: "x"})
 		case 1:
-			lc.inputs = append(lc.inputs, loopInput{"h", int64(r.Intn(50)), "d"}) // below the depth
+			lc.inputs = append(lc.inputs, loopInput{Kind: "h", N: int64(r.Intn(50)), Out: "d"}) // below the depth
 		case 2:
-			lc.inputs = append(lc.inputs, loopInput{"h", head, "d"}) // repeated header
+			lc.inputs = append(lc.inputs, loopInput{Kind: "h", N: head, Out: "d"}) // repeated header
 		case 3:
-			lc.inputs = append(lc.inputs, loopInput{"h", head - 1 - int64(r.Intn(3)), "d"}) // lower header
+			lc.inputs = append(lc.inputs, loopInput{Kind: "h", N: head - 1 - int64(r.Intn(3)), Out: "d"}) // lower header
 		}
 		head += int64(1 + r.Intn(4)) // gaps and bursts
 	}
@@ -840,7 +926,8 @@ func fixCrashPoints(lc *loopCase) {
 			continue
 		}
 		if in.N < 50 {
-			if strings.HasPrefix(in.Out, "c") {
+			if in.Out != "d" && in.Out != "f" {
+				in.Out = "c0"
 				mem = persisted
 			}
 			continue
@@ -856,10 +943,31 @@ func fixCrashPoints(lc *loopCase) {
 				has = true
 			}
 		}
-		if !has && (in.Out == "c1" || in.Out == "c2" || in.Out == "c3" || in.Out == "c4") {
-			in.Out = "d"
+		// the model input: what this directive means for a loop that does ONE broadcast (iff the range has
+		// events) and ONE cursor write per iteration; a point that such a loop never reaches = runs to the end
+		mo := in.Out
+		ck, kk := crashK(in.Out)
+		switch {
+		case in.Out == "c1" && !has:
+			mo = "d"
+		case ck == 'b':
+			mo = "d"
+			if has && kk == 1 {
+				mo = "c2"
+			}
+		case ck == 'a':
+			mo = "d"
+			if has && kk == 1 {
+				mo = "c3"
+			}
+		case ck == 'w':
+			mo = "d"
+			if kk == 1 {
+				mo = "c5"
+			}
 		}
-		switch in.Out {
+		in.M = mo
+		switch mo {
 		case "d":
 			persisted, mem = e+1, e+1
 		case "f":
@@ -887,12 +995,30 @@ func init() {
 		}
 		if n > 0 {
 			cases[0] = loopCase{p0: 0, place: [][2]int64{{1, 70}, {2, 75}, {3, 76}, {4, 90}},
-				inputs: []loopInput{{"h", 120, "d"}, {"h", 126, "c3"}, {"h", 130, "f"}, {"h", 131, "d"}, {"h", 140, "c5"}, {"h", 139, "d"}}}
+				inputs: []loopInput{{Kind: "h", N: 120, Out: "d"}, {Kind: "h", N: 126, Out: "c3"}, {Kind: "h", N: 130, Out: "f"}, {Kind: "h", N: 131, Out: "d"}, {Kind: "h", N: 140, Out: "c5"}, {Kind: "h", N: 139, Out: "d"}}}
+			fixCrashPoints(&cases[0])
+		}
+		if n > 2 {
+			// directed: 25 events in one range — 18 in blocks 1100..1117, four in block 1200, three in 1300..1302 —
+			// kill on the second broadcast of the iteration (if there is one), restart, continue
+			var pl [][2]int64
+			for i := int64(0); i < 18; i++ {
+				pl = append(pl, [2]int64{i + 1, 1100 + i})
+			}
+			for i := int64(0); i < 4; i++ {
+				pl = append(pl, [2]int64{19 + i, 1200})
+			}
+			for i := int64(0); i < 3; i++ {
+				pl = append(pl, [2]int64{23 + i, 1300 + i})
+			}
+			cases[2] = loopCase{p0: 1001, place: pl, inputs: []loopInput{{Kind: "h", N: 1450, Out: "b2"}, {Kind: "h", N: 1451, Out: "d"}, {Kind: "h", N: 1455, Out: "d"}}}
+			fixCrashPoints(&cases[2])
 		}
 		if n > 1 {
 			// directed: persisted cursor 100, first header 12157 blocks later; events just beyond 1000, 5000, 10000 blocks
 			cases[1] = loopCase{p0: 100, place: [][2]int64{{1, 1101}, {2, 5101}, {3, 10101}, {4, 12107}},
-				inputs: []loopInput{{"h", 12157, "d"}, {"h", 12160, "d"}, {Kind: "x"}, {"h", 12161, "d"}}}
+				inputs: []loopInput{{Kind: "h", N: 12157, Out: "d"}, {Kind: "h", N: 12160, Out: "d"}, {Kind: "x"}, {Kind: "h", N: 12161, Out: "d"}}}
+			fixCrashPoints(&cases[1])
 		}
 		type res struct {
 			obs string
